@@ -63,8 +63,10 @@ def rule_scopes(ctx):
         if f is None:
             ctx.missing(R, "DeclarationEnvironment::" + nm)
             continue
-        t = render(f["body"]).replace(" ", "")
-        ctx.check(R, "DeclarationEnvironment::%s/both-environments" % nm, ("self.declarations.%s()" % nm) in t and ("self.scoped_versions.%s()" % nm) in t and "global_versions" not in t, t, site(UV, f))
+        from astlib import simplify_body
+
+        t = render(simplify_body(f["body"])).replace(" ", "")  # destructuring of self reads as projections
+        ctx.check(R, "DeclarationEnvironment::%s/both-environments" % nm, ("self.declarations.%s()" % nm) in t and ("self.scoped_versions.%s()" % nm) in t and ("global_versions.%s" % nm) not in t, t, site(UV, f))
 
 
 def rule_renaming(ctx):
@@ -169,7 +171,16 @@ def rule_shadowing(ctx):
     br = find_fn(UV, "build_report")
     if br is not None:
         t = render(br["body"]).replace(" ", "")
-        ok = "primary_file_id:primary_meta.file_id" in t and "primary_location:primary_meta.file_location()" in t and "secondary_file_id:secondary_decl.file_id()" in t and "secondary_location:secondary_decl.file_location()" in t and "ShadowingVariableWarning" in t
+        import sgrep
+        from astlib import struct_literal_fields
+
+        pvr = sgrep.params(br)
+        lits = [l_ for l_ in struct_literal_fields(br, "ShadowingVariableWarning")]
+        ok = False
+        if len(lits) == 1 and len(pvr) == 3:
+            f_ = lits[0]
+            nm_, pm_, sd_ = pvr
+            ok = f_.get("primary_file_id") == "%s.file_id" % pm_ and f_.get("primary_location") == "%s.file_location()" % pm_ and f_.get("secondary_file_id") == "%s.file_id()" % sd_ and f_.get("secondary_location") == "%s.file_location()" % sd_ and f_.get("name", "").startswith(nm_)
         ctx.check(R, "build_report/locations", ok, t[:200], site(UV, br))
     # add_declaration records + versions
     ad = find_fn(UV, "add_declaration", "DeclarationEnvironment")
@@ -240,7 +251,7 @@ def rule_shadowing(ctx):
         t = render(eu["body"]).replace(" ", "")
         import sgrep
         pve = sgrep.params(eu)
-        envn = [k for k, v in sgrep.lets(eu["body"]).items() if len(pve) == 3 and sgrep.match(sgrep.pattern("__p.try_into()?"), v, {"__p": pve[1]})]
+        envn = [k for k, v in sgrep.lets(eu["body"]).items() if len(pve) == 3 and (sgrep.match(sgrep.pattern("__p.try_into()?"), v, {"__p": pve[1]}) or sgrep.match(sgrep.pattern("DeclarationEnvironment::try_from(__p)?"), v, {"__p": pve[1]}) or sgrep.match(sgrep.pattern("TryFrom::try_from(__p)?"), v, {"__p": pve[1]}))]
         oke = len(envn) == 1 and sgrep.has(eu["body"], "visit_statement(__s, __e, __r)", None, {"__s": pve[0], "__e": envn[0], "__r": pve[2]})
         ctx.check(R, "ensure_unique_variables/parameters-outermost", oke, t[:200], site(UV, eu))
 
